@@ -31,6 +31,10 @@ RAW_CONTROLS = [
      'pub fn touch() -> borsh::schema::BorshSchemaContainer { borsh::schema::BorshSchemaContainer::for_type::<G<u8, u16>>() }'),
     ('raw_f9_assoc', 'where-clause over an associated type and a second parameter, BorshSchema',
      'pub trait Tr { type A; }\n#[derive(borsh::BorshSchema)]\npub enum H<T: Tr, U> where T::A: core::fmt::Debug, U: Clone { X(T::A, u8), Y(U) }'),
+    ('raw_zero_variants', 'enum without variants, all three derives (F28: BorshSerialize failed with E0004; fixed by f6c47ad)',
+     '#[derive(borsh::BorshSerialize, borsh::BorshDeserialize, borsh::BorshSchema)]\npub enum Never {}\n'
+     '#[derive(borsh::BorshSerialize, borsh::BorshDeserialize, borsh::BorshSchema)]\npub struct HasNever { pub o: Option<Never>, pub r: Result<u8, Never> }\n'
+     'pub fn touch() -> Vec<u8> { borsh::to_vec(&HasNever { o: None, r: Ok(3) }).unwrap() }'),
     ('raw_lifetime_enum', 'enum with a lifetime parameter (used by every variant), all three derives',
      '#[derive(borsh::BorshSerialize, borsh::BorshDeserialize, borsh::BorshSchema)]\n'
      "pub enum L<'a> { A(std::borrow::Cow<'a, str>), B { x: std::borrow::Cow<'a, [u8]>, y: u8 } }\n"
